@@ -78,6 +78,9 @@ def classes_for(S, type_name: str, key: str, node: dict) -> list[VClass]:
                 add(VClass("STR_PLAIN", plain, "QUOTED"))
                 if a.sub == "PLAIN":
                     add(VClass("STR_PADDED", padded, "QUOTED"))
+                    # content wrapped in the *other* quote character (TEXT "'[name]'"): those inner quotes are
+                    # content, the value still needs its own pair
+                    add(VClass("STR_IN_ALTQUOTES", lambda q: SStr([{'"': "'", "'": '"'}[q], Atom("inner", first=LOWER, last=WORD, excludes=frozenset("\"'`\\"), free=True), {'"': "'", "'": '"'}[q]]), "QUOTED"))
                     add(VClass("STR_EMPTY", lambda q: "", "QUOTED"))
                     # an escaped output quote inside or at the end of the text (escaped quotes are within C01; only unescaped ones are excluded)
                     add(VClass("STR_ESC_QUOTE_END", lambda q: SStr([Atom("s", first=LOWER, last=WORD, excludes=frozenset("\"'`\\"), free=True), "\\" + q]), "QUOTED"))
@@ -143,6 +146,7 @@ def classes_for(S, type_name: str, key: str, node: dict) -> list[VClass]:
         # a read of a missing key creates, and a dictionary that is not a block (no __type__)
         add(VClass("EMPTYDICT", lambda q: _empty_dict(), "RAISE"))
         add(VClass("DICT_NO_TYPE", lambda q: _typeless_dict(), "RAISE"))
+
     return out
 
 
@@ -170,7 +174,25 @@ def attr_line(I, pp, type_name: str, key: str, value: Any):
     d.factory = None
     d["__type__"] = type_name
     d[key] = value
-    outs = I.explore(models.fmt_qual(I.repo), lambda: (pp() if callable(pp) else pp, [d], models.fmt_level_kw(I.repo, 0)))  # level by name: it may be keyword-only
+    mk = lambda: (pp() if callable(pp) else pp, [d], models.fmt_level_kw(I.repo, 0))  # level by name: it may be keyword-only
+    try:
+        outs = I.explore(models.fmt_qual(I.repo), mk)
+    except AnalysisError as ex:
+        if "undecided predicate (forking disabled)" not in str(ex) or I.allow_fork:
+            raise
+        # a test the value class leaves open (e.g. the length of an unknown text): follow both branches; the
+        # line is accepted only if every branch writes the same thing
+        I.allow_fork = True
+        try:
+            outs = I.explore(models.fmt_qual(I.repo), mk)
+        finally:
+            I.allow_fork = False
+        if outs:
+            def sig(o_):
+                return (o_.kind, o_.exc if o_.kind == "raise" else tuple(pai.as_sstr(x) if isinstance(x, (str, SStr)) else repr(x) for x in (o_.value or [])))
+
+            if len({sig(o_) for o_ in outs}) == 1:
+                outs = outs[:1]
     if len(outs) != 1:
         raise AnalysisError(f"_format forks for {type_name}.{key}: {[o.assumptions for o in outs]}")
     o = outs[0]
